@@ -43,6 +43,31 @@ def gateOf (k : Sched.PeriodKind) (f : Sched.Flags) (idx : List Cal.Stamp) : Lis
     | .ok b => b
     | .error _ => false
 
+/-- counting / once schedulers as state machines over the calls `run()` receives: one call per row from `firstRow` on
+    (row 1 for a backtest's own root, row 0 for a shadow copy) -/
+def gateCounting (answers : List Cal.Stamp → List Bool) (idx : List Cal.Stamp) (firstRow : Nat) : List Bool :=
+  List.replicate (min firstRow idx.length) false ++ answers (idx.drop firstRow)
+
+/-- scheduler spec -> gate: `0..4 f1 f2 f3` calendar schedulers; `5 firstRow` RunOnce; `6 n offset firstRow` RunEveryNPeriods;
+    `7 days firstRow` RunAfterDays -/
+def pGate (idx : List Cal.Stamp) : P (List Bool) := do
+  let k ← nat
+  if k ≤ 4 then
+    let kind : Sched.PeriodKind := match k with
+      | 0 => .daily | 1 => .weekly | 2 => .monthly | 3 => .quarterly | _ => .yearly
+    let f1 ← bool; let f2 ← bool; let f3 ← bool
+    pure (gateOf kind ⟨f1, f2, f3⟩ idx)
+  else if k == 5 then
+    let fr ← nat
+    pure (gateCounting (fun rows => Sched.trace Sched.runOnceStep false (rows.map fun t => some t.ns)) idx fr)
+  else if k == 6 then
+    let n ← nat; let off ← nat; let fr ← nat
+    pure (gateCounting (fun rows => Sched.trace Sched.everyNStep (Sched.everyNInit n off) (rows.map fun t => some t.ns)) idx fr)
+  else if k == 7 then
+    let days ← nat; let fr ← nat
+    pure (gateCounting (fun rows => Sched.trace Sched.runAfterDaysStep (days : Int) (rows.map fun t => some t.ns)) idx fr)
+  else throw s!"unknown scheduler kind {k}"
+
 partial def pProgTree (idx : List Cal.Stamp) : P (ProgTree Float) := do
   let k ← pKind
   let f1 ← bool; let f2 ← bool; let f3 ← bool
@@ -112,8 +137,8 @@ partial def pGTree (cfg : Cfg Float) (idx : List Cal.Stamp) : P (GTree Float) :=
       | _ => some <$> pGTree cfg idx)
     let p : ProgFI Float := { gate := gateOf k ⟨f1, f2, f3⟩ idx, ws, notional }
     return (.node (progRunFI cfg p) kids)
-  let k ← pKind
-  let f1 ← bool; let f2 ← bool; let f3 ← bool
+  let flow ← opt float
+  let gate ← pGate idx
   let ucols ← list nat
   let sels ← list pSelStep
   let wgh ← pWgh
@@ -121,8 +146,10 @@ partial def pGTree (cfg : Cfg Float) (idx : List Cal.Stamp) : P (GTree Float) :=
     match (← next) with
     | "N" => pure none
     | _ => some <$> pGTree cfg idx)
-  let p : ProgX Float := { gate := gateOf k ⟨f1, f2, f3⟩ idx, ucols, sels, wgh }
-  pure (.node (progRunX cfg p) kids)
+  let p : ProgX Float := { gate, ucols, sels, wgh }
+  match flow with
+  | none => pure (.node (progRunX cfg p) kids)
+  | some a => pure (.node (withFlow a (progRunX cfg p)) kids)
 
 partial def pSimG (cfg : Cfg Float) (idx : List Cal.Stamp) : P (SimG Float) := do
   let w ← pWorld
